@@ -73,24 +73,25 @@ add("C17", "exploration", "differential isolation monitor (mutate A, observe sna
 
 # ---- workloads added after the third seeding round (DESIGN 9.7): appended to the level text of each check
 EXTRA = {
- "C02": " An earlier clone is edited in place and dropped, then the untouched original is cloned again and compared.",
- "C03": " A module that is attached to a project is also written as a stand-alone synth and judged.",
- "C04": " Half of the encoded cases are loaded a second time after the first result was edited in place.",
+ "C12": " Visualization words are also edited as they live on modules; out-of-width sub-field arguments must clamp or mask; images with blank lines in the operation sequences.",
+ "C02": " An earlier clone is edited in place and dropped, then the untouched original is cloned again and compared. A save that fails inside (module-less effect synth, unpackable embedded field) is repaired and repeated; modules are also cloned while attached and linked.",
+ "C03": " A module that is attached to a project is also written as a stand-alone synth and judged. Files are also written from objects holding out-of-range public values, from fresh modules edited element by element, and from projects with sibling MetaModules.",
+ "C04": " Half of the encoded cases are loaded a second time after the first result was edited in place. The visible value of every exposed MetaModule controller is judged against the documented rule resolved through nested MetaModules from the bytes alone; older sampler layouts built without rv.",
  "C05": " Inputs also come from another writer: the independent reference encoder with random format choices, incl. payload-heavy types with zero-length last samples.",
  "C06": " MetaModule u_<label> aliases are edited through rvmon.aliasprobe (the value lands on the labelled controller only).",
- "C07": " Operator chains of 2-5 operators through lists are judged as one request per operator plus the value each operator returns.",
- "C08": " Half of the states carry a random (also very old) version stamp; hubs with 257-330 links give slot numbers beyond 255.",
- "C09": " set_raw (stored encoding) is a third assignment path; MetaModule u_<label> aliases are probed for range enforcement.",
- "C10": " User-defined proxies are enumerated fresh, through a file, after the count was lowered and raised, and under every unit of all six unit-dependent targets after the unit was changed and the mappings re-derived.",
+ "C07": " Operator chains of 2-5 operators through lists are judged as one request per operator plus the value each operator returns. Also with only the modules kept by the caller, inside deep copies, with 300+ modules, with re-attached and cloned modules between requests.",
+ "C08": " Half of the states carry a random (also very old) version stamp; hubs with 257-330 links give slot numbers beyond 255. Random flag words; the same file name rewritten (same size, same mtime) and loaded by name.",
+ "C09": " set_raw (stored encoding) is a third assignment path; MetaModule u_<label> aliases are probed for range enforcement. Keyword-first constructions precede everything else; held out-of-range values are re-assigned in strict mode; enum spellings through MetaModule proxies.",
+ "C10": " User-defined proxies are enumerated fresh, through a file, after the count was lowered and raised, and under every unit of all six unit-dependent targets after the unit was changed and the mappings re-derived. Surplus-CVAL files for every type; reflect histories; proxy CVAL bytes of both writers parsed without rv; soak slice with the encoding invariant.",
  "C11": " A quarter of the random cases start from a generated instance (samples, long envelopes, embedded project) and half see non-option traffic (controller writes, envelopes, hidden user-defined slots, embedded controllers) before observation.",
  "C13": " The comparison is repeated after a hostile workload and after an application-style subclass of every module class was defined.",
- "C14": " Lists may name a new module twice; Note.mod is probed after the pattern's cells were replaced in bulk (fn, gen, gen with scribbling).",
+ "C14": " Lists may name a new module twice; Note.mod is probed after the pattern's cells were replaced in bulk (fn, gen, gen with scribbling). Worlds may live inside a constructed MetaModule; new_module with foreign modules and a hand-made second Output are operations.",
  "C15": " Sibling MetaModules with byte-identical embedded projects are loaded and one is edited; stored user values are desynchronised and the count raised.",
  "C16": " The loaded instrument is edited in place (half of the cases after one save) incl. dict-level note-map mutators and saved again; record versions are arbitrary.",
  "C17": " Pairs of MetaModules carrying the same labels on different slots are addressed alternately through u_<label>.",
  "C18": " An implementation-independent monitor compares the process's open descriptors (/proc/self/fd) before and after every load; directory paths are a fault kind.",
  "C19": " Prefill contains module-only, note-only and empty cells; successful edits also move the pattern's own cell objects to other cells.",
- "C20": " Bundles with a history (targets unplugged after linking, unit-dependent targets under every unit, bystander modules) are driven on sampled inputs and every controller of every module is compared before/after.",
+ "C20": " Bundles with a history (targets unplugged after linking, unit-dependent targets under every unit, bystander modules) are driven on sampled inputs and every controller of every module is compared before/after. Bundles across project levels (MultiCtl -> MetaModule slot -> embedded MultiCtl) and a served-at-all check for every live mapped link.",
 }
 for _pid, _txt in EXTRA.items():
     CHECKS[_pid]["text"] += _txt
